@@ -142,3 +142,19 @@ def t13_programs(tier):
         e = "flow e\n" + ind(["start ActEAction()", "match E4()"])
         yield (c + "\n" + d + "\n" + e + "\n" + "flow main\n" + ind(mb), activators, {}, ["E1", "E2", "E3", "E4"], [],
                {"t": "T13", "main": mb, "c": cb}, {})
+
+
+def t14_programs(tier):
+    """three heads of ONE conflict group with equal scores: two flows start the identical action, a third one another action;
+    one of the identical pair is a descendant of the third.  Whoever wins the tie-break: a flow that is taken down by its
+    losing ancestor during the resolution does not share the winner's action (the action is stopped with its last holder)."""
+    for child_act, parent_act, sib_act in (("X", "Y", "X"), ("X", "Y", "Y"), ("X", "X", "Y"), ("X", "Y", "Z")):
+        for depth2 in (False, True):
+            act = lambda k: f'ActSAction(script="{k}")'  # noqa: E731
+            b = "flow b\n" + ind(["match E1()", f"start {act(child_act)}", "match E3()"])
+            mid = ("flow m\n" + ind(["start b", "match E4()"]) + "\n") if depth2 else ""
+            a = "flow a\n" + ind([("start m" if depth2 else "start b"), "match E1()", f"start {act(parent_act)}", "match E3()"])
+            c = "flow c\n" + ind(["match E1()", f"start {act(sib_act)}", "match E2()"])
+            main = "flow main\n" + ind(["start c", "start a", "match E4()"])
+            yield (b + "\n" + mid + a + "\n" + c + "\n" + main, {}, {}, ["E1", "E2", "E3", "E4"], [],
+                   {"t": "T14", "actions": [child_act, parent_act, sib_act], "depth2": depth2}, {})
